@@ -57,6 +57,10 @@ Step(sc, acc, r) ==
               LET mine == { k \in a1.run : sc.inv[k].state = r.a } IN
               [a1 EXCEPT !.owed = Cardinality(mine), !.run = @ \ mine, !.mac = Append(@, r),
                          !.cinst = @ \cup { a1.inst[k] : k \in mine },
+                         \* the child had ended (its done.invoke was in the queue) before the host even sent the event whose
+                         \* processing now leaves the state: the queue is FIFO, done.invoke had to be processed first
+                         !.owed_done = @ \cup { a1.inst[k] : k \in { x \in mine : sc.kids[a1.inst[x]].final /\ sc.kids[a1.inst[x]].tend > 0
+                                                                                  /\ a1.last.ts > sc.kids[a1.inst[x]].tend } },
                          !.dead = @ \cup { sc.inv[k].id : k \in mine },
                          !.closed = @ \o SetToSeq({ [inst |-> a1.inst[k], k |-> k, names |-> a1.xrs[k]] : k \in mine })]
          [] r.k = "cancel" ->
@@ -66,7 +70,7 @@ Step(sc, acc, r) ==
               ELSE LET isdone == \E k \in a1.run : r.a = "done.invoke." \o sc.inv[k].id
                        dk == { k \in a1.run : r.a = "done.invoke." \o sc.inv[k].id }
                        fwd == [x \in DOMAIN sc.inv |-> IF x \in a1.run /\ x \notin dk THEN Append(a1.xrs[x], r.a) ELSE a1.xrs[x]]
-                   IN [a1 EXCEPT !.xrs = fwd, !.run = @ \ dk, !.cur = r, !.finseen = FALSE,
+                   IN [a1 EXCEPT !.xrs = fwd, !.run = @ \ dk, !.cur = r, !.last = r, !.finseen = FALSE,
                                  !.dead = @ \cup { sc.inv[k].id : k \in dk },
                                  !.done = @ \o SetToSeq({ a1.inst[k] : k \in dk }),
                                  !.closed = @ \o SetToSeq({ [inst |-> a1.inst[k], k |-> k, names |-> a1.xrs[k]] : k \in dk }),
@@ -76,15 +80,15 @@ Step(sc, acc, r) ==
               \* (whether <finalize> also runs for the platform's done.invoke event is not judged)
               LET want == a1.cur.k = "xr" /\ \E k \in a1.run : sc.inv[k].id = a1.cur.b /\ sc.inv[k].fin
                   isdone == \E x \in DOMAIN sc.inv : a1.cur.a = "done.invoke." \o sc.inv[x].id IN
-              IF isdone THEN [a1 EXCEPT !.cur = [k |-> "", a |-> "", b |-> ""]]
+              IF isdone THEN [a1 EXCEPT !.cur = [k |-> "", a |-> "", b |-> "", ts |-> 0]]
               ELSE IF a1.cur.k = "xr" /\ want /\ ~a1.finseen THEN [a1 EXCEPT !.bad = "finalize-missing"]
               ELSE IF a1.cur.k = "xr" /\ ~want /\ a1.finseen THEN [a1 EXCEPT !.bad = "finalize-spurious"]
-              ELSE [a1 EXCEPT !.cur = [k |-> "", a |-> "", b |-> ""]]
+              ELSE [a1 EXCEPT !.cur = [k |-> "", a |-> "", b |-> "", ts |-> 0]]
          [] OTHER -> [a1 EXCEPT !.mac = Append(@, r)]
 
 Acc0(sc) == [run |-> {}, mac |-> <<>>, owed |-> 0, nstart |-> 0, xrs |-> [x \in DOMAIN sc.inv |-> <<>>],
-             inst |-> [x \in DOMAIN sc.inv |-> 0], dead |-> {}, bad |-> "", cur |-> [k |-> "", a |-> "", b |-> ""],
-             finseen |-> FALSE, done |-> <<>>, closed |-> <<>>, cinst |-> {}]
+             inst |-> [x \in DOMAIN sc.inv |-> 0], dead |-> {}, bad |-> "", cur |-> [k |-> "", a |-> "", b |-> "", ts |-> 0],
+             finseen |-> FALSE, done |-> <<>>, closed |-> <<>>, cinst |-> {}, owed_done |-> {}, last |-> [k |-> "", a |-> "", b |-> "", ts |-> 0]]
 Fold(sc) == FoldLeft(LAMBDA acc, r : Step(sc, acc, r), Acc0(sc), sc.p)
 
 ScenClass(sc) ==
@@ -93,6 +97,7 @@ ScenClass(sc) ==
   ELSE IF f.nstart # Len(sc.kids) THEN "child-count"
   \* done.invoke exactly for the children that reached a final state by themselves and were not cancelled before
   ELSE IF \E n \in DOMAIN sc.kids : sc.kids[n].final /\ ~sc.kids[n].cancelled /\ n \notin f.cinst /\ Cardinality({ j \in DOMAIN f.done : f.done[j] = n }) # 1 THEN "done-invoke-missing"
+  ELSE IF \E n \in f.owed_done : ~\E j \in DOMAIN f.done : f.done[j] = n THEN "done-invoke-missing"
   ELSE IF \E n \in DOMAIN sc.kids : ~sc.kids[n].final /\ \E j \in DOMAIN f.done : f.done[j] = n THEN "done-invoke-on-cancel"
   \* autoforward: a forwarding child received exactly the external events the parent processed while it ran
   \* (a child that ended by itself may have missed the last ones)
